@@ -654,6 +654,46 @@ fn c13_idem_small_methods() {
 	idem_renko();
 }
 
+/// Cross / CrossAbove / CrossUnder: a restored instance *continues* like the original (a field left out of
+/// the serialized form — e.g. a skipped inner detector — keeps the round trip idempotent but loses state):
+/// new(a, b), one symbolic step, snapshot, then the same symbolic step fed to both gives the same action.
+#[kani::proof]
+#[kani::unwind(20)]
+fn c13_cross_continues() {
+	let a = any_val();
+	let b = any_val();
+	let s1 = (any_val(), any_val());
+	let s2 = (any_val(), any_val());
+	let c: u8 = kani::any();
+	if c == 0 {
+		if let Ok(mut x) = Cross::new((), &(a, b)) {
+			let _ = x.next(&s1);
+			if let Some(mut y) = idem::<Cross, 9>(&x) {
+				let (p, q) = (x.next(&s2), y.next(&s2));
+				kani::assert(p.analog() == q.analog(), "restored Cross continues like the original");
+				kani::cover!(p.analog() == -1, "downward cross after the snapshot");
+				kani::cover!(p.analog() == 1, "upward cross after the snapshot");
+			}
+		}
+	} else if c == 1 {
+		if let Ok(mut x) = CrossAbove::new((), &(a, b)) {
+			let _ = x.next(&s1);
+			if let Some(mut y) = idem::<CrossAbove, 3>(&x) {
+				let (p, q) = (x.next(&s2), y.next(&s2));
+				kani::assert(p.analog() == q.analog(), "restored CrossAbove continues like the original");
+			}
+		}
+	} else {
+		if let Ok(mut x) = CrossUnder::new((), &(a, b)) {
+			let _ = x.next(&s1);
+			if let Some(mut y) = idem::<CrossUnder, 3>(&x) {
+				let (p, q) = (x.next(&s2), y.next(&s2));
+				kani::assert(p.analog() == q.analog(), "restored CrossUnder continues like the original");
+			}
+		}
+	}
+}
+
 /// CollapseTimeframe holding Some(candle) (Option field)
 #[kani::proof]
 #[kani::unwind(20)]
